@@ -1,7 +1,8 @@
 #!/usr/bin/env python3
-"""Sensitivity check: applies small hand-written mutants of zlint to /repo one at a time, runs the
-quick check of the property each one should break, and reverts (git checkout). Usage:
-   tools/mutants.py [ID ...]        (no IDs = all)
+"""Sensitivity check: applies small hand-written mutants of zlint, each to a scratch worktree of /repo (never to
+/repo itself), runs the quick check of the property each one should break against that worktree (VERIF_ALT_REPO)
+from a frozen copy of /verif, and removes the worktree. Usage:
+   tools/mutants.py [ID ...] [-j 3] [--suite]       (no IDs = all; --suite also runs zlint's own tests on the mutant)
 Prints one line per mutant: CAUGHT (exit 1 + VIOLATION), MISSED (exit 0) or INCONCLUSIVE (exit 2)."""
 import subprocess, sys, os, re, json, time
 
@@ -55,41 +56,72 @@ M = [
 def sh(cmd, **kw):
     return subprocess.run(cmd, shell=True, stdout=subprocess.PIPE, stderr=subprocess.STDOUT, text=True, **kw)
 
-def main():
-    want = set(sys.argv[1:])
-    assert sh("git -C %s status --porcelain --untracked-files=no" % REPO).stdout.strip() == "", "repo not clean"
-    res = []
-    for mid, prop, path, old, new in M:
-        if want and mid not in want and prop not in want:
-            continue
-        fp = os.path.join(REPO, path)
+ENV = dict(os.environ, GOFLAGS="-mod=mod", GOPROXY="off", GOSUMDB="off", GOTOOLCHAIN="local")
+SNAP = None
+
+
+def run_one(m, suite):
+    """One mutant in a scratch worktree of /repo (never /repo itself); the check runs against it via VERIF_ALT_REPO."""
+    import hashlib, shutil
+    mid, prop, path, old, new = m
+    if old is None:
+        return "%-28s %s SKIP (needs manual edit)" % (mid, prop), None
+    wt = "/tmp/mutrun-" + mid
+    sh("git -C %s worktree remove --force %s" % (REPO, wt))
+    sh("git -C %s worktree add -q --detach %s HEAD" % (REPO, wt))
+    try:
+        fp = os.path.join(wt, path)
         src = open(fp).read()
-        if old is None:
-            print("%-28s %s SKIP (needs manual edit)" % (mid, prop)); continue
         if old not in src:
-            print("%-28s %s PATTERN-NOT-FOUND" % (mid, prop)); continue
+            return "%-28s %s PATTERN-NOT-FOUND" % (mid, prop), None
         mut = src.replace(old, new, 1)
         for imp in ("os", "sort"):
             if (imp + ".") in new and not re.search(r'\n\t"%s"\n' % imp, mut):
                 mut = mut.replace("import (\n", "import (\n\t\"%s\"\n" % imp, 1)
         open(fp, "w").write(mut)
-        try:
-            b = sh("cd %s/v3 && GOFLAGS=-mod=mod go build ./... 2>&1 | tail -3" % REPO)
-            if b.stdout.strip():
-                print("%-28s %s DOES-NOT-BUILD %s" % (mid, prop, b.stdout.strip()[:200])); continue
-            t = sh("cd %s/v3 && GOFLAGS=-mod=mod go test -vet=off -count=1 ./... 2>&1 | grep -c '^FAIL\\|^---  *FAIL'" % REPO)
-            suite = "suite-passes" if t.stdout.strip() == "0" else "SUITE-FAILS"
-            t0 = time.time()
-            r = sh("cd /verif && ./check %s --tier quick" % prop)
-            verdict = {0: "MISSED", 1: "CAUGHT", 2: "INCONCLUSIVE"}.get(r.returncode, "rc=%d" % r.returncode)
-            sig = ""
-            m = re.search(r"signature=(.*)", r.stdout)
-            if m:
-                sig = m.group(1)[:90]
-            print("%-28s %s %-12s %-13s %5.1fs %s" % (mid, prop, verdict, suite, time.time() - t0, sig), flush=True)
-            res.append((mid, prop, verdict, suite, sig))
-        finally:
-            sh("git -C %s checkout -- ." % REPO)
+        b = sh("cd %s/v3 && go build ./... 2>&1 | tail -3" % wt, env=ENV)
+        if b.stdout.strip():
+            return "%-28s %s DOES-NOT-BUILD %s" % (mid, prop, b.stdout.strip()[:200]), None
+        st = "suite-not-run"
+        if suite:
+            t = sh("cd %s/v3 && go test -vet=off -count=1 ./... 2>&1 | grep -c '^FAIL\\|^---  *FAIL'" % wt, env=ENV)
+            st = "suite-passes" if t.stdout.strip() == "0" else "SUITE-FAILS"
+        t0 = time.time()
+        r = sh("./check %s --tier quick" % prop, cwd=SNAP, env=dict(ENV, VERIF_ALT_REPO=wt))
+        verdict = {0: "MISSED", 1: "CAUGHT", 2: "INCONCLUSIVE"}.get(r.returncode, "rc=%d" % r.returncode)
+        sig = ""
+        mm = re.search(r"signature=(.*)", r.stdout)
+        if mm:
+            sig = mm.group(1)[:90]
+        return "%-28s %s %-12s %-13s %5.1fs %s" % (mid, prop, verdict, st, time.time() - t0, sig), (mid, prop, verdict, st, sig)
+    finally:
+        sh("git -C %s worktree remove --force %s" % (REPO, wt))
+        shutil.rmtree(os.path.join(SNAP, ".build", "alt-" + hashlib.sha1(wt.encode()).hexdigest()[:10]), ignore_errors=True)
+
+
+def main():
+    global SNAP
+    import shutil
+    from concurrent.futures import ThreadPoolExecutor
+    args = sys.argv[1:]
+    suite = "--suite" in args
+    par = 3
+    if "-j" in args:
+        par = int(args[args.index("-j") + 1])
+        del args[args.index("-j"):args.index("-j") + 2]
+    want = set(a for a in args if not a.startswith("-"))
+    SNAP = "/tmp/verif-snap-mut-%d" % os.getpid()
+    shutil.rmtree(SNAP, ignore_errors=True)
+    assert sh("rsync -a --exclude .git --exclude .build --exclude replays --exclude seeded /verif/ %s/" % SNAP).returncode == 0
+    todo = [m for m in M if not want or m[0] in want or m[1] in want]
+    res = []
+    with ThreadPoolExecutor(max_workers=par) as ex:
+        for line, r in ex.map(lambda m: run_one(m, suite), todo):
+            print(line, flush=True)
+            if r:
+                res.append(r)
+    shutil.rmtree(SNAP, ignore_errors=True)
+    os.makedirs("/verif/.build", exist_ok=True)
     json.dump(res, open("/verif/.build/mutants-last.json", "w"), indent=1)
 
 if __name__ == "__main__":
